@@ -111,10 +111,10 @@ theorem callsIn_iterTrace (L : List Nat) (var : Bytes) (cols : Option Nat) (body
     · exact callsIn_nil L _
     · exact ih _ _ _
 
-theorem callsAt_loopTrace (P : Prims) (path : Bytes) (L : List Nat) (line : Nat) (hl : line ∈ L) (hpos : line ≠ 0 ∨ path ≠ [])
+theorem callsAt_loopTrace {budget : Int} (P : Prims) (path : Bytes) (L : List Nat) (line : Nat) (hl : line ∈ L) (hpos : line ≠ 0 ∨ path ≠ [])
     (tablerow : Bool) (var : Bytes) (e : Expr) (mods : LoopMods) (bodyM : M Status) (bodyT : RS → Tr)
     (hb : ∀ s, (bodyT s).CallsIn L) (tooMany : Bool) (elseT : Option (RS → Tr)) (he : ∀ t, elseT = some t → ∀ s, (t s).CallsIn L) (s : RS) :
-    (loopTrace P path ⟨line, true⟩ tablerow var e mods bodyM bodyT tooMany elseT s).CallsAt L := by
+    (loopTrace budget P path ⟨line, true⟩ tablerow var e mods bodyM bodyT tooMany elseT s).CallsAt L := by
   unfold loopTrace
   refine callsAt_bind _ (callsAt_ownTr L line hl _) (fun a => ?_)
   split
